@@ -22,6 +22,7 @@ func checkC17(c *Check, a *Anchors) {
 	c17PrefixUnderLock(c, a)
 	c17CloserAlwaysCalled(c, a)
 	c17PrefixLineComplete(c, a)
+	closerClosesEveryWriter(c, a)
 }
 
 // writesTo: the ssa call writes to the value loaded from field `field` of type typ (as receiver of Write or as first argument of a writer helper).
@@ -71,6 +72,17 @@ func c17GroupOneWrite(c *Check, a *Anchors) {
 	c.Fn(fb)
 	pe := &PathEnum{Fn: fn, MaxRevisit: revisit(), Event: func(in ssa.Instruction) (string, string) {
 		if call, ok := in.(*ssa.Call); ok && writesToField(call.Common(), "groupWriter", "writer") {
+			// io.Copy* from anything but a bytes.Buffer / Reader (single WriteTo) may issue several writes
+			if f := call.Common().StaticCallee(); f != nil && f.Pkg != nil && f.Pkg.Pkg.Path() == "io" && strings.HasPrefix(f.Name(), "Copy") && len(call.Common().Args) >= 2 {
+				src := call.Common().Args[1]
+				if mi, ok := src.(*ssa.MakeInterface); ok {
+					src = mi.X
+				}
+				ts := types.TypeString(src.Type(), nil)
+				if ts != "*bytes.Buffer" && ts != "*bytes.Reader" && ts != "*strings.Reader" {
+					return "write-shared-multi", "call"
+				}
+			}
 			return "write-shared", "call"
 		}
 		return "", ""
@@ -84,6 +96,9 @@ func c17GroupOneWrite(c *Check, a *Anchors) {
 		for _, e := range p.Events {
 			if e.Label == "write-shared" {
 				n++
+			}
+			if e.Label == "write-shared-multi" {
+				n += 2 // a streaming copy is not one write
 			}
 		}
 		total += n
